@@ -373,10 +373,44 @@ def r16_5(ctx):
         ctx.bad("cli-stores-floor", "-", "only %d command-line layer stores analysed (6 confirmed by reading)" % n)
 
 
+def r16_6(ctx):
+    """an absent flag must leave its key unset: no clap argument that feeds the command-line layer (the flags of CLI_KEY_FLAGS) carries a
+    default value - with one, the derive fills the field although the user passed nothing and the layer overrides document and test case"""
+    prog = ctx.prog
+    flags = set().union(*CLI_KEY_FLAGS.values())
+    seen = set()
+    n = 0
+    for b in prog.bodies:
+        if b.promoted is not None or not b.crate.startswith("scrut-bin") or b.name not in ("augment_args", "augment_args_for_update"):
+            continue
+        o = None
+        for bb, t in b.calls():
+            m = mname(t)
+            if m == "Arg::new":
+                o = o or Origins(b)
+                ident = peel(o.operand(t["args"][0]))
+                if ident.kind == "const" and ident.a.as_str() in flags:
+                    seen.add(ident.a.as_str())
+            if not (m.startswith("Arg::default_") or m in ("Arg::default_missing_value", "Arg::default_missing_values")):
+                continue
+            o = o or Origins(b)
+            recv = o.operand(t["args"][0])
+            ids = [peel(x.kids[0]).a.as_str() for x in recv.walk() if x.kind == "call" and method_name(x.a) == "Arg::new" and x.kids and peel(x.kids[0]).kind == "const"]
+            for ident in ids[:1]:
+                n += 1
+                ctx.check(ident not in flags, "flag-default:%s:%s" % (b.impl_self.split("::")[-1] if b.impl_self else b.npath, ident), b.loc(bb),
+                          "`%s` has a clap default but is no key of the command-line configuration layer" % ident,
+                          "the flag `%s` feeds the command-line configuration layer and has a clap default (%s): without the flag on the command line the layer still "
+                          "sets the key and overrides the document's / test case's value" % (ident, peel(o.operand(t["args"][1])).show()[:40] if len(t["args"]) > 1 else "?"))
+    ctx.check(len(seen) >= 8, "flags-found", "-", "%d flag definitions of the command-line layer found in the clap derives (%s)" % (len(seen), sorted(seen)),
+              "only %d of the command-line layer's flags found in the clap derives: %s" % (len(seen), sorted(seen)))
+
+
 def run(ctx):
     ctx.run_rule("R16.1", "with_defaults_from merges every field with an operator whose priority side is the receiver: or/or_else (receiver wins), "
                  "defaults.chain(self).collect() for maps (later wins), extend for lists (both kept) [E-FLOW]", r16_1, floor=14)
     ctx.run_rule("R16.2", "with_overrides_from(o) == o.with_defaults_from(self) in both config types [E-FLOW]", r16_2, floor=2)
     ctx.run_rule("R16.3", "layer order at every merge call site in lib+bin: CLI > TESTCASE > DOC > FORMAT [E-SITE]", r16_3, floor=9)
     ctx.run_rule("R16.4", "format default tables: markdown {stdout, skip 80}, cram {combined, keep_crlf, skip 80} [E-TABLE]", r16_4, floor=4)
+    ctx.run_rule("R16.6", "an absent flag leaves its key unset: no clap default on any flag that feeds the command-line layer [E-SITE over the derive expansion]", r16_6, floor=8)
     ctx.run_rule("R16.5", "who-may-set in the command-line layer: each key is decided only by its own flag(s) (control dependence of every store in to_*_config) [E-SITE]", r16_5, floor=6)
